@@ -120,7 +120,7 @@ def dom_job(dom, seq, mode="sound", budget=120, soft=False, what="", tier="quick
         args["cr"] = 16
     # DOM=15: under known finding F35 every path of a history that widens a non-increasing pair ends at the widening
     return Job("dom", args, defines=("DOM=%d" % dom,), budget=budget, what=what or ("%s: %s" % (DOMS[dom][0], seq)), witnesses=1,
-               soft=soft, allow_vacuous=soft or (dom == 15 and "wid" in seq) or (dom in MACHINE_WEIGHT and tier == "thorough"))
+               soft=soft, allow_vacuous=soft or (dom == 15 and "wid" in seq) or dom in MACHINE_WEIGHT)  # concretised constants of machine-weight jobs (range cr) can make a history infeasible
 
 
 def hist_jobs(tier, seed, doms_full, doms_light, focus=None, ngen_quick=24, ngen_thorough=400, mode="sound"):
@@ -284,7 +284,10 @@ def c01_jobs(tier, seed):
     for pr in FWD_PROGS:
         for (wd, di, thr) in params:
             for d in doms_full:
-                J.append(fwd_job(d, pr, wd, di, thr, tier))
+                sym = None
+                if tier == "quick" and d == 2 and (wd, di, thr) != (1, 1, 0):
+                    sym = ",".join(FWD_SYM[pr].split(",")[:2])  # zones: 3 symbolic constants only under the default setting
+                J.append(fwd_job(d, pr, wd, di, thr, tier, sym=sym))
         for d in doms_full:
             J.append(fwd_job(d, pr, 1, 1, 0, tier, live=1))
     for i, d in enumerate(doms_light):
